@@ -2,11 +2,15 @@ use crate::report::{Cfg, Outcome};
 
 pub mod c01;
 pub mod c25;
+pub mod c27;
+pub mod c36;
 
 pub fn dispatch(cfg: &Cfg) -> Option<Outcome> {
     Some(match cfg.prop.as_str() {
         "C01" => c01::run(cfg),
         "C25" => c25::run(cfg),
+        "C27" => c27::run(cfg),
+        "C36" => c36::run(cfg),
         _ => return None,
     })
 }
